@@ -307,5 +307,7 @@ def run(repo: Repo, tier: str) -> Report:
            f"stores into the output: {[(s.idx_key, s.rhs.key()) for s in sca]}; gather mask {mask}", sca[-1].stmt if sca else "scatter")
     from ..rules import r_truthy
     r_truthy(rep, repo, "PixelAlgorithms", "spi", ["nodata"], "0 is a legitimate nodata value (it is the one the test-suite uses); a truth test silently replaces or drops it")
+    from ..rules import r_stateless
+    r_stateless(rep, repo, [('PixelAlgorithms', 'spi')])
     rep.floor("C09 obligations", len(rep.obls), 25)
     return rep
